@@ -135,7 +135,12 @@ def jobs(tier, seed):
         js = mod.jobs("quick" if tier == "quick" else "thorough", seed)
         rng.shuffle(js)
         n_take = per * (4 if prop == "C04" else 1)  # elimination shapes are cheap and reach most raise sites
-        for j in js[:n_take]:
+        picked = js[:n_take]
+        # raise sites that only particular inputs reach are always part of the census: constant divisions (a zero divisor
+        # is the one ParseFatalException of the grammar)
+        if prop == "C09":
+            picked += [j for j in js[n_take:] if "division" in j["kind"]]
+        for j in picked:
             out.append({"kind": "census:" + prop, "prop": prop, "job": j})
     # adversarial shapes
     adv = []
